@@ -8,7 +8,7 @@ import time
 
 import numpy as np
 
-from ..harness import T, sig_of, snapshot
+from ..harness import T, sig_of, snapshot, gradof, set_grad
 from ..symnum import engine as E
 from ..symnum import array as ar
 from ..symnum.scalar import S
@@ -200,7 +200,7 @@ class Case:
                 # buffer at all (a later step skips the parameter); the reference mirrors what the optimizer left
                 for r, p in zip(refs, params):
                     if r.requires_grad:
-                        r.grad = None if p._grad is None else [0 * x for x in r.p]
+                        r.grad = None if gradof(p) is None else [0 * x for x in r.p]
             else:
                 opt.step()
                 for r in refs:
@@ -224,13 +224,13 @@ class Case:
                             bufs.append((nm, b))
                 for nm, b in bufs:
                     for i, p in enumerate(params):
-                        if p._grad is not None:
+                        if gradof(p) is not None:
                             out.fact("%s shares no memory with p%d.grad %s" % (nm, i, tag),
-                                     not np.shares_memory(ar.unwrap(b), ar.unwrap(p._grad)))
+                                     not np.shares_memory(ar.unwrap(b), ar.unwrap(gradof(p))))
         for i, (p, r) in enumerate(zip(params, refs)):
             if not r.requires_grad:
                 out.pair("frozen p%d unchanged" % i, p.data, np.array(initial[i], dtype=object if env.sym else np.float64).reshape(p.shape))
-                out.fact("frozen p%d never acquires a gradient" % i, p._grad is None)
+                out.fact("frozen p%d never acquires a gradient" % i, gradof(p) is None)
         return out
 
 
@@ -308,14 +308,14 @@ class StepCase(Case):
         try:
             pa, A = mk(env.const([0.75, -1.5], np.float64))
             for i in range(k):
-                pa._grad = env.const(grads[i], np.float64)
+                set_grad(pa, env.const(grads[i], np.float64))
                 A.step()
             st = extract(A, names)
             pb, B = mk(snapshot(pa.data))
             pc, C = mk(snapshot(pa.data))
             inject(B, st, k if sp["opt"] != "SGD" else 3)
             for q, O in ((pa, A), (pb, B), (pc, C)):
-                q._grad = env.const(grads[k], np.float64)
+                set_grad(q, env.const(grads[k], np.float64))
                 O.step()
             va, vb, vc = (key(q.data) for q in (pa, pb, pc))
         except Unsupported:
@@ -335,7 +335,7 @@ class StepCase(Case):
         a = env.arr("p0", shp)
         p = nn.Parameter(Tn(a, requires_grad=True))
         g = env.arr("grad", shp, lo=-2, hi=2)
-        p._grad = snapshot(g)
+        set_grad(p, snapshot(g))
         R = RefParam([a[i] for i in range(2)])
         R.grad = [g[i] for i in range(2)]
         if sp["opt"] == "SGD":
@@ -365,13 +365,13 @@ class StepCase(Case):
         out.pair("parameter after one step from an arbitrary state", snapshot(p.data),
                  np.array(R.p, dtype=object if env.sym else np.float64))
         out.fact("updated in place", p.data is a)
-        out.pair("the gradient buffer is left alone by step()", snapshot(p._grad), g)
+        out.pair("the gradient buffer is left alone by step()", snapshot(gradof(p)), g)
         # how the optimizer represents its state internally is its own business: only aliasing is checked here, the values
         # are observable through the parameter trajectories of the history cases
         for nm in ("momentum_buffer", "m1", "m2"):
             for b in getattr(opt, nm, []) or []:
                 if isinstance(b, np.ndarray):
-                    out.fact("%s shares no memory with the gradient" % nm, not np.shares_memory(ar.unwrap(b), ar.unwrap(p._grad)))
+                    out.fact("%s shares no memory with the gradient" % nm, not np.shares_memory(ar.unwrap(b), ar.unwrap(gradof(p))))
         return out
 
 
